@@ -228,4 +228,43 @@ theorem column_ofTS_filter (s : TS) (w : Int → Bool) :
       exact ⟨by simp, ih⟩
     · exact ih
 
+/-- a leading `None` is set aside too -/
+theorem directionO_leading_none (ds : List Int) (hne : ds ≠ []) :
+    directionO (Option.none :: ds.map some) = .ok (nonDecreasing ds) := by
+  unfold directionO
+  obtain ⟨x, hx⟩ : ∃ x, (ds.map some).getLast? = some (some x) := by
+    rw [List.getLast?_map]
+    cases h : ds.getLast? with
+    | none => exact absurd (List.getLast?_eq_none_iff.mp h) hne
+    | some x => exact ⟨x, rfl⟩
+  have hne' : ds.map some ≠ [] := by simpa using hne
+  have hlast : (Option.none :: ds.map some).getLast? = some (some x) := by
+    rw [List.getLast?_cons_of_ne_nil hne', hx]
+  have hl : ¬ ((Option.none :: ds.map some).length < 2) := by
+    cases ds with
+    | nil => exact absurd rfl hne
+    | cons a t => simp
+  rw [if_neg hl, hlast]
+  simp [any_isNone_map_some, filterMap_id_map_some]
+
+
+theorem nodup_rev {α} {l : List α} (h : l.Nodup) : l.reverse.Nodup :=
+  List.pairwise_reverse.mpr (h.imp (fun hab e => hab e.symm))
+
+/-- a bound list read as DEcreasing is the reversed list (with the series reversed) read as increasing -/
+theorem stitchO_reverse (dfs : List TS) (D : List (Option Int)) (h1 : directionO D = .ok false) (h2 : directionO D.reverse = .ok true)
+    (oc : Option (List Char)) (n : Nat) :
+    stitchO dfs Option.none (some D) oc n = stitchO dfs.reverse Option.none (some D.reverse) oc n := by
+  simp [stitchO, normaliseO, h1, h2, bind, Except.bind, pure, Except.pure]
+
+theorem unsliceO_reverse (F : Frame) (D : List (Option Int)) (h1 : directionO D = .ok false) (h2 : directionO D.reverse = .ok true)
+    (hnd : D.Nodup) :
+    unsliceO F D = (unsliceO F D.reverse).map List.reverse := by
+  simp only [unsliceO, h1, h2, bind, Except.bind, pure, Except.pure, if_true, Bool.false_eq_true, if_false]
+  cases handedO F D.reverse with
+  | error e => rfl
+  | ok rs =>
+    simp only [Except.map]
+    rw [eraseDups_of_nodup _ hnd, eraseDups_of_nodup _ (nodup_rev hnd), List.map_reverse, List.reverse_reverse]
+
 end Pyg.Slice
